@@ -6,8 +6,11 @@
 package main
 
 import (
+	"crypto/sha256"
+	"encoding/hex"
 	"flag"
 	"fmt"
+	"math/big"
 	"os"
 	"sort"
 	"strings"
@@ -18,6 +21,8 @@ import (
 	simapp "github.com/KiraCore/sekai/app"
 	distrtypes "github.com/KiraCore/sekai/x/distributor/types"
 	mskeeper "github.com/KiraCore/sekai/x/multistaking/keeper"
+	recoverykeeper "github.com/KiraCore/sekai/x/recovery/keeper"
+	recoverytypes "github.com/KiraCore/sekai/x/recovery/types"
 	mstypes "github.com/KiraCore/sekai/x/multistaking/types"
 	"github.com/KiraCore/sekai/x/slashing"
 	slashingtypes "github.com/KiraCore/sekai/x/slashing/types"
@@ -35,14 +40,30 @@ import (
 var denoms = []string{"ukex", "ubtc", "xeth", "ufoo"} // model denom ids 0..3 (ufoo: not registered)
 
 const nDelegators = 5 // accounts 0..4 delegate, account 5 is a stranger who never delegates
-var acctIDs = []int64{0, 1, 2, 3, 4, 5, 100, 101}
+// 6, 7: fresh addresses (targets of address rotations); 100: the account of the pool validator (follows a rotation of
+// that account), 101: validator without pool, 102: the pool validator's former account after a rotation
+var acctIDs = []int64{0, 1, 2, 3, 4, 5, 6, 7, 100, 101, 102}
+
+// per-history address map (rotation of the validator account re-points 100) and pool validator address
+var curAddr = map[int64]sdk.AccAddress{}
+var curValP sdk.ValAddress
 
 func acctAddr(id int64) sdk.AccAddress {
+	if a, ok := curAddr[id]; ok {
+		return a
+	}
+	return baseAddr(id)
+}
+
+func baseAddr(id int64) sdk.AccAddress {
 	b := []byte("_acct______________x")
 	if id >= 100 {
 		b = []byte("_validator_________x")
 	}
-	b[0] = byte(0x10 + id)
+	b[0] = byte(0x10 + id%100)
+	if id >= 100 {
+		b[0] = byte(0xA0 + id - 100)
+	}
 	return sdk.AccAddress(b)
 }
 
@@ -77,7 +98,10 @@ type world struct {
 	consQ sdk.ConsAddress
 	consU sdk.ConsAddress
 	ms    mstypes.MsgServer
+	rs    recoverytypes.MsgServer
 }
+
+const recoveryProof = "c10aabbccdd0"
 
 func must(err error) {
 	if err != nil {
@@ -147,6 +171,25 @@ func setup(app *simapp.SekaiApp, base sdk.Context, cfg config) *world {
 		cs := sdk.NewCoins(sdk.NewInt64Coin("ukex", 1_000_000), sdk.NewInt64Coin("ubtc", 50_000), sdk.NewInt64Coin("xeth", 3_000), sdk.NewInt64Coin("ufoo", 500))
 		must(app.BankKeeper.MintCoins(ctx, minttypes.ModuleName, cs))
 		must(app.BankKeeper.SendCoinsFromModuleToAccount(ctx, minttypes.ModuleName, acctAddr(i), cs))
+	}
+	// the validators' own accounts exist from the start
+	for _, id := range []int64{100, 101} {
+		one := sdk.NewCoins(sdk.NewInt64Coin("ukex", 1))
+		must(app.BankKeeper.MintCoins(ctx, minttypes.ModuleName, one))
+		must(app.BankKeeper.SendCoinsFromModuleToAccount(ctx, minttypes.ModuleName, acctAddr(id), one))
+	}
+	// account 5 can pay recovery fees (1000 KEX)
+	big := sdk.NewCoins(sdk.NewInt64Coin("ukex", 5_000_000_000))
+	must(app.BankKeeper.MintCoins(ctx, minttypes.ModuleName, big))
+	must(app.BankKeeper.SendCoinsFromModuleToAccount(ctx, minttypes.ModuleName, acctAddr(5), big))
+	// recovery secrets of the delegators and of the pool validator's account
+	w.rs = recoverykeeper.NewMsgServerImpl(app.RecoveryKeeper)
+	pb, _ := hex.DecodeString(recoveryProof)
+	ch := sha256.Sum256(pb)
+	for _, id := range []int64{0, 1, 2, 3, 4, 100} {
+		_, err := w.rs.RegisterRecoverySecret(sdk.WrapSDKContext(ctx), &recoverytypes.MsgRegisterRecoverySecret{
+			Address: acctAddr(id).String(), Challenge: hex.EncodeToString(ch[:]), Nonce: "n", Proof: recoveryProof})
+		must(err)
 	}
 	// inflation base: the supply as it is now, a while ago
 	sup := app.BankKeeper.GetSupply(ctx, "ukex")
@@ -277,7 +320,7 @@ const poolPrefix = "v1/"
 
 func (w *world) observe(ctx sdk.Context) obs {
 	app := w.app
-	pool, found := app.MultiStakingKeeper.GetStakingPoolByValidator(ctx, w.valP.String())
+	pool, found := app.MultiStakingKeeper.GetStakingPoolByValidator(ctx, curValP.String())
 	if !found || pool.Id != 1 {
 		panic("pool 1 expected")
 	}
@@ -420,6 +463,9 @@ type op struct {
 	Signed   []bool  `json:"signed,omitempty"`   // their SignedLastBlock flags
 	Proposer int64   `json:"proposer,omitempty"` // proposer of this block
 	Votes    [][2]int64 `json:"votes,omitempty"`
+	Payer    int64      `json:"payer,omitempty"`
+	At       int64      `json:"at_unix,omitempty"` // advance_to: absolute block time
+	Ns       int64      `json:"ns,omitempty"`      // nanosecond part of the new block time
 	// observed
 	Res        string `json:"res"`
 	Err        string `json:"err,omitempty"`
@@ -467,8 +513,14 @@ func (o *op) coq() string {
 		return fmt.Sprintf("(OSetCompound %d %s %s)", o.Who, hx.B(o.All), zlist(dd))
 	case "fees":
 		return fmt.Sprintf("(OFees %s)", coinsCoq(o.Amts))
-	case "advance":
+	case "advance", "advance_to":
 		return fmt.Sprintf("(OAdvance %s)", hx.Z(o.Dt))
+	case "rotate":
+		return fmt.Sprintf("(ORotate %d %d %d)", o.Who, o.To, o.Payer)
+	case "rotate_val":
+		return fmt.Sprintf("(ORotateVal %d)", o.Payer)
+	case "rotate_val_rr":
+		return "(OExternal 1)"
 	case "set_votes":
 		var vs []string
 		for _, v := range o.Votes {
@@ -498,6 +550,7 @@ type history struct {
 	signedAt map[int64]map[int64]bool
 	// the vote store was written at keeper level: the signing record is no longer the blocks' own
 	usedSetVotes bool
+	pendingVal   sdk.AccAddress
 }
 
 // exec runs one operation on the real code inside a cache context, as baseapp does for a message
@@ -505,8 +558,20 @@ type history struct {
 func (w *world) exec(ctx sdk.Context, h *history, o *op) (sdk.Context, bool) {
 	app := w.app
 	switch o.Kind { // clock changes are not "messages"
-	case "advance":
-		ctx = ctx.WithBlockTime(ctx.BlockTime().Add(secs(o.Dt)))
+	case "advance": // seconds plus a nanosecond part; the model sees whole seconds (the code compares Unix seconds)
+		old := ctx.BlockTime()
+		ctx = ctx.WithBlockTime(old.Add(secs(o.Dt) + time.Duration(o.Ns)))
+		o.Dt = ctx.BlockTime().Unix() - old.Unix()
+		o.Res = "ok"
+		return ctx, true
+	case "advance_to": // absolute time (never backwards)
+		old := ctx.BlockTime()
+		t := time.Unix(o.At, o.Ns).UTC()
+		if t.Before(old) {
+			t = old
+		}
+		ctx = ctx.WithBlockTime(t)
+		o.Dt = t.Unix() - old.Unix()
 		o.Res = "ok"
 		return ctx, true
 	}
@@ -518,14 +583,14 @@ func (w *world) exec(ctx sdk.Context, h *history, o *op) (sdk.Context, bool) {
 	g := sdk.WrapSDKContext(c)
 	var err error
 	supplyBefore := app.BankKeeper.GetSupply(c, "ukex").Amount
-	pool, _ := app.MultiStakingKeeper.GetStakingPoolByValidator(c, w.valP.String())
+	pool, _ := app.MultiStakingKeeper.GetStakingPoolByValidator(c, curValP.String())
 	o.SlashedNow = pool.Slashed.IsPositive()
 	p := hx.Try(func() {
 		switch o.Kind {
 		case "delegate":
-			_, err = w.ms.Delegate(g, &mstypes.MsgDelegate{DelegatorAddress: acctAddr(o.Who).String(), ValidatorAddress: w.valP.String(), Amounts: toSdk(o.Amts, "")})
+			_, err = w.ms.Delegate(g, &mstypes.MsgDelegate{DelegatorAddress: acctAddr(o.Who).String(), ValidatorAddress: curValP.String(), Amounts: toSdk(o.Amts, "")})
 		case "undelegate":
-			_, err = w.ms.Undelegate(g, &mstypes.MsgUndelegate{DelegatorAddress: acctAddr(o.Who).String(), ValidatorAddress: w.valP.String(), Amounts: toSdk(o.Amts, "")})
+			_, err = w.ms.Undelegate(g, &mstypes.MsgUndelegate{DelegatorAddress: acctAddr(o.Who).String(), ValidatorAddress: curValP.String(), Amounts: toSdk(o.Amts, "")})
 		case "claim":
 			if u, ok := app.MultiStakingKeeper.GetUndelegationById(c, uint64(o.ID)); ok {
 				o.Stranger = u.Address != acctAddr(o.Who).String()
@@ -534,10 +599,10 @@ func (w *world) exec(ctx sdk.Context, h *history, o *op) (sdk.Context, bool) {
 		case "claim_matured":
 			_, err = w.ms.ClaimMaturedUndelegations(g, &mstypes.MsgClaimMaturedUndelegations{Sender: acctAddr(o.Who).String()})
 		case "slash": // the multistaking keeper as the application holds it
-			app.MultiStakingKeeper.SlashStakingPool(c, w.valP.String(), sdk.MustNewDecFromStr(o.Slash))
+			app.MultiStakingKeeper.SlashStakingPool(c, curValP.String(), sdk.MustNewDecFromStr(o.Slash))
 		case "slash_proposal": // the governance path: slashing proposal handler -> slashing keeper -> its multistaking keeper
 			hnd := slashing.NewApplySlashValidatorProposalHandler(app.CustomSlashingKeeper)
-			err = hnd.Apply(c, 1, &slashingtypes.ProposalSlashValidator{Offender: w.valP.String(), StakingPoolId: 1}, sdk.MustNewDecFromStr(o.Slash))
+			err = hnd.Apply(c, 1, &slashingtypes.ProposalSlashValidator{Offender: curValP.String(), StakingPoolId: 1}, sdk.MustNewDecFromStr(o.Slash))
 		case "send_shares":
 			err = app.BankKeeper.SendCoins(c, acctAddr(o.Who), acctAddr(o.To), toSdk(o.Amts, poolPrefix))
 		case "claim_rewards":
@@ -550,6 +615,28 @@ func (w *world) exec(ctx sdk.Context, h *history, o *op) (sdk.Context, bool) {
 				ds = append(ds, denoms[d])
 			}
 			_, err = w.ms.SetCompoundInfo(g, &mstypes.MsgSetCompoundInfo{Sender: acctAddr(o.Who).String(), AllDenom: o.All, CompoundDenoms: ds})
+		case "rotate":
+			_, err = w.rs.RotateRecoveryAddress(g, &recoverytypes.MsgRotateRecoveryAddress{
+				FeePayer: acctAddr(o.Payer).String(), Address: acctAddr(o.Who).String(), Recovery: acctAddr(o.To).String(), Proof: recoveryProof})
+		case "rotate_val":
+			fresh := sdk.AccAddress([]byte(fmt.Sprintf("_rotatedvalidator_%02d", len(h.Steps)%100)))
+			_, err = w.rs.RotateRecoveryAddress(g, &recoverytypes.MsgRotateRecoveryAddress{
+				FeePayer: acctAddr(o.Payer).String(), Address: acctAddr(100).String(), Recovery: fresh.String(), Proof: recoveryProof})
+			if err == nil {
+				h.pendingVal = fresh
+			}
+		case "rotate_val_rr":
+			// recovery token of the validator at keeper level (as the repo's own test does), account 5 holds all rr tokens
+			rr := sdk.NewCoins(sdk.NewInt64Coin("rr/c10", 1000))
+			app.RecoveryKeeper.SetRecoveryToken(c, recoverytypes.RecoveryToken{Address: acctAddr(100).String(), Token: "rr/c10", RrSupply: sdk.NewInt(1000), UnderlyingTokens: sdk.Coins{}})
+			must(app.BankKeeper.MintCoins(c, minttypes.ModuleName, rr))
+			must(app.BankKeeper.SendCoinsFromModuleToAccount(c, minttypes.ModuleName, acctAddr(5), rr))
+			fresh := sdk.AccAddress([]byte(fmt.Sprintf("_rrrotatedvalidat_%02d", len(h.Steps)%100)))
+			_, err = w.rs.RotateValidatorByHalfRRTokenHolder(g, &recoverytypes.MsgRotateValidatorByHalfRRTokenHolder{
+				RrHolder: acctAddr(5).String(), Address: acctAddr(100).String(), Recovery: fresh.String()})
+			if err == nil {
+				h.pendingVal = fresh
+			}
 		case "fees":
 			cs := toSdk(o.Amts, "")
 			must(app.BankKeeper.MintCoins(c, minttypes.ModuleName, cs))
@@ -611,8 +698,15 @@ func (w *world) exec(ctx sdk.Context, h *history, o *op) (sdk.Context, bool) {
 	}
 	if o.Res == "ok" {
 		write()
+		if h.pendingVal != nil { // the account id of "the pool validator" follows the rotation
+			curAddr[102] = acctAddr(100)
+			curAddr[100] = h.pendingVal
+			curValP = sdk.ValAddress(h.pendingVal)
+			h.pendingVal = nil
+		}
 		return runCtx, true
 	}
+	h.pendingVal = nil
 	return ctx, false
 }
 
@@ -630,6 +724,10 @@ func resCode(r string) int {
 type gen struct {
 	r *hx.Rng
 	w *world
+	// address rotations done in this history
+	rotatedFrom map[int64]bool
+	targets     []int64 // used rotation targets (they act as accounts afterwards)
+	valRotated  bool
 }
 
 func (g *gen) amount(max int64) int64 {
@@ -648,7 +746,7 @@ func (g *gen) stakeCoins(adversarial bool) []coin {
 	if g.w.cfg.tok["xeth"].enabled {
 		pick = append(pick, 2)
 	}
-	n := 1 + g.r.Intn(2)
+	n := 1 + g.r.Intn(3) // coin sets of one to three denominations
 	seen := map[int]bool{}
 	for i := 0; i < n; i++ {
 		d := pick[g.r.Intn(len(pick))]
@@ -677,6 +775,34 @@ func (g *gen) undelegateCoins(o obs, who int64, adversarial bool) []coin {
 	for _, c := range o.Stake {
 		stake[c.D] = c.A
 	}
+	shares := map[int]int64{}
+	for _, c := range o.Shares {
+		shares[c.D] = c.A
+	}
+	// everything the holder's shares of one denom redeem (pro rata to the books)
+	full := func(c coin) int64 {
+		if shares[c.D] == 0 {
+			return c.A
+		}
+		return int64(new(big.Int).Div(new(big.Int).Mul(big.NewInt(c.A), big.NewInt(stake[c.D])), big.NewInt(shares[c.D])).Int64())
+	}
+	// a holder of several denominations: leave ONE denomination completely, keep (or partly redeem) the others
+	if hs := o.SBal[who]; len(hs) >= 2 && g.r.Chance(45) {
+		k := g.r.Intn(len(hs))
+		if a := full(hs[k]); a > 0 {
+			cs = append(cs, coin{hs[k].D, a})
+		}
+		for i, c := range hs {
+			if i != k && g.r.Chance(35) {
+				if a := full(c); a > 1 {
+					cs = append(cs, coin{c.D, 1 + g.r.Range(0, a-2)})
+				}
+			}
+		}
+		if len(cs) > 0 {
+			return cs
+		}
+	}
 	for _, c := range o.SBal[who] {
 		if g.r.Chance(70) {
 			a := c.A
@@ -703,7 +829,45 @@ func (g *gen) undelegateCoins(o obs, who int64, adversarial bool) []coin {
 	return cs
 }
 
-func (g *gen) anyAcct() int64 { return int64(g.r.Intn(nDelegators + 1)) }
+func (g *gen) anyAcct() int64 {
+	if len(g.targets) > 0 && g.r.Chance(25) {
+		return g.targets[g.r.Intn(len(g.targets))]
+	}
+	return int64(g.r.Intn(nDelegators + 1))
+}
+
+// an address rotation (x/recovery): of a delegator to a fresh address, or of the pool validator's own account
+func (g *gen) rotationOp(o obs) []*op {
+	r := g.r
+	payer := int64(5)
+	if r.Chance(15) {
+		payer = g.delegator() // cannot afford the fee: rejected
+	}
+	if !g.valRotated && r.Chance(30) {
+		if r.Chance(25) {
+			g.valRotated = true
+			return []*op{{Kind: "rotate_val_rr"}}
+		}
+		g.valRotated = payer == 5
+		return []*op{{Kind: "rotate_val", Payer: payer}}
+	}
+	if len(g.targets) >= 2 {
+		return nil
+	}
+	who := g.delegator()
+	if hs := holders(o); len(hs) > 0 && r.Chance(80) {
+		who = hs[r.Intn(len(hs))]
+	}
+	if who > 4 || g.rotatedFrom[who] {
+		return nil
+	}
+	to := int64(6 + len(g.targets))
+	if payer == 5 {
+		g.rotatedFrom[who] = true
+		g.targets = append(g.targets, to)
+	}
+	return []*op{{Kind: "rotate", Who: who, To: to, Payer: payer}}
+}
 func (g *gen) delegator() int64 { return int64(g.r.Intn(nDelegators)) }
 
 func (g *gen) blockOps(h *history, withEnd bool) []*op {
@@ -757,8 +921,29 @@ func holders(o obs) []int64 {
 // one random operation given the current observation
 func (g *gen) randomOp(o obs, kindBias string) []*op {
 	ops := g.randomOp1(o)
-	if (ops[0].Kind == "claim" || ops[0].Kind == "claim_matured") && g.r.Chance(35) {
-		ops = append([]*op{{Kind: "advance", Dt: int64(g.w.cfg.unstake) + g.r.Range(-1, 1)}}, ops...)
+	if (ops[0].Kind == "claim" || ops[0].Kind == "claim_matured") && g.r.Chance(45) {
+		if len(o.Undels) > 0 && g.r.Chance(70) {
+			// the block time lands on the expiry of a record: 1 ns before, exactly, 1 ns after, a second around
+			u := o.Undels[g.r.Intn(len(o.Undels))]
+			for _, x := range o.Undels {
+				if ops[0].Kind == "claim" && int64(x.ID) == ops[0].ID {
+					u = x
+				}
+			}
+			e := int64(u.Expiry)
+			at := [][2]int64{{e - 1, 999_999_999}, {e, 0}, {e, 1}, {e - 1, 0}, {e + 1, 0}, {e - 1, 500_000_000}}[g.r.Intn(6)]
+			ops = append([]*op{{Kind: "advance_to", At: at[0], Ns: at[1]}}, ops...)
+		} else {
+			ops = append([]*op{{Kind: "advance", Dt: int64(g.w.cfg.unstake) + g.r.Range(-1, 1), Ns: g.r.Range(0, 999_999_999)}}, ops...)
+		}
+	}
+	// list fields with a repeated entry (msg-server level: ValidateBasic of these messages checks nothing)
+	if (ops[0].Kind == "delegate" || ops[0].Kind == "undelegate") && len(ops[0].Amts) > 0 && g.r.Chance(6) {
+		c := ops[0].Amts[g.r.Intn(len(ops[0].Amts))]
+		if g.r.Chance(50) {
+			c.A = 1 + c.A/3
+		}
+		ops[0].Amts = append(ops[0].Amts, c)
 	}
 	return ops
 }
@@ -781,9 +966,18 @@ func (g *gen) randomOp1(o obs) []*op {
 			k = 0
 		}
 	}
+	if r.Chance(4) {
+		if ops := g.rotationOp(o); ops != nil {
+			return ops
+		}
+	}
 	switch {
 	case k < 25:
-		return []*op{{Kind: "delegate", Who: g.delegator(), Amts: g.stakeCoins(adversarial)}}
+		who := g.delegator()
+		if len(g.targets) > 0 && r.Chance(20) {
+			who = g.targets[r.Intn(len(g.targets))]
+		}
+		return []*op{{Kind: "delegate", Who: who, Amts: g.stakeCoins(adversarial)}}
 	case k < 45:
 		who := g.anyAcct()
 		if len(hs) > 0 && !(adversarial && r.Chance(50)) {
@@ -925,6 +1119,48 @@ func scripted(cfgIdx int) []*history {
 	ops4 = append(ops4, &op{Kind: "fees", Amts: []coin{c(1, 6)}},
 		&op{Kind: "begin", Dt: 5, Commit: []int64{0, 1}, Signed: []bool{true, true}, Proposer: 0}, &op{Kind: "end"})
 	add("witness:over_credit_through_blocks", 1, ops4...)
+	// a delegator staked in two denominations leaves ONE of them completely: he stays a delegator and keeps being credited
+	ops5 := []*op{{Kind: "delegate", Who: 0, Amts: []coin{c(0, 1000), c(1, 1000)}}, {Kind: "delegate", Who: 1, Amts: []coin{c(0, 500)}},
+		{Kind: "undelegate", Who: 0, Amts: []coin{c(1, 1000)}}}
+	for i := 0; i < 3; i++ {
+		ops5 = append(ops5, blk(0)...)
+	}
+	ops5 = append(ops5, &op{Kind: "undelegate", Who: 0, Amts: []coin{c(0, 1000)}})
+	add("witness:two_denoms_full_exit_of_one", 1, ops5...)
+	// address rotation of a delegator: coins, shares, rewards, compound info, registration move to the new address
+	ops6 := []*op{{Kind: "delegate", Who: 0, Amts: []coin{c(0, 1000), c(1, 300)}}, {Kind: "delegate", Who: 1, Amts: []coin{c(0, 700)}},
+		{Kind: "set_compound", Who: 0, All: false, Dens: []int{1}}}
+	ops6 = append(ops6, blk(0)...)
+	ops6 = append(ops6, blk(0)...)
+	ops6 = append(ops6, &op{Kind: "undelegate", Who: 0, Amts: []coin{c(0, 100)}},
+		&op{Kind: "rotate", Who: 0, To: 6, Payer: 0}, // cannot pay the fee
+		&op{Kind: "rotate", Who: 0, To: 6, Payer: 5})
+	ops6 = append(ops6, blk(0)...)
+	ops6 = append(ops6, blk(0)...)
+	ops6 = append(ops6, &op{Kind: "claim_rewards", Who: 6}, &op{Kind: "undelegate", Who: 6, Amts: []coin{c(0, 200)}},
+		&op{Kind: "advance", Dt: 604800, Ns: 1}, &op{Kind: "claim", Who: 6, ID: 1}, &op{Kind: "claim", Who: 0, ID: 1}, &op{Kind: "claim_matured", Who: 6})
+	add("witness:delegator_rotation", 1, ops6...)
+	// address rotation of the pool validator's own account: the pool, its record and the rewards follow
+	ops7 := []*op{{Kind: "delegate", Who: 0, Amts: []coin{c(0, 1000)}}}
+	ops7 = append(ops7, blk(0)...)
+	ops7 = append(ops7, blk(0)...)
+	ops7 = append(ops7, &op{Kind: "rotate_val", Payer: 5})
+	ops7 = append(ops7, blk(0)...)
+	ops7 = append(ops7, &op{Kind: "delegate", Who: 1, Amts: []coin{c(0, 400), c(1, 50)}}, &op{Kind: "slash_proposal", Slash: "0.25"},
+		&op{Kind: "undelegate", Who: 1, Amts: []coin{c(1, 37)}})
+	ops7 = append(ops7, blk(0)...)
+	add("witness:validator_rotation", 1, ops7...)
+	add("witness:validator_rotation_by_rr_holder", 1,
+		&op{Kind: "delegate", Who: 0, Amts: []coin{c(0, 1000)}}, &op{Kind: "fees", Amts: []coin{c(0, 4000)}},
+		&op{Kind: "begin", Dt: 5, Commit: []int64{0, 1}, Signed: []bool{true, true}, Proposer: 0}, &op{Kind: "end"},
+		&op{Kind: "rotate_val_rr"})
+	// repeated entries in Amounts
+	add("witness:repeated_amounts", 0,
+		&op{Kind: "delegate", Who: 0, Amts: []coin{c(0, 100), c(0, 100)}},
+		&op{Kind: "delegate", Who: 0, Amts: []coin{c(0, 300), c(1, 300)}},
+		&op{Kind: "undelegate", Who: 0, Amts: []coin{c(0, 200), c(0, 200)}},
+		&op{Kind: "undelegate", Who: 0, Amts: []coin{c(0, 100), c(0, 100)}},
+		&op{Kind: "advance", Dt: 2629800}, &op{Kind: "claim", Who: 0, ID: 1}, &op{Kind: "claim_matured", Who: 0})
 	// stake caps summing to 1: the delegators are credited 4 out of a pool allocation of 3
 	add("witness:credited_exceeds_allocation", 1,
 		&op{Kind: "delegate", Who: 0, Amts: []coin{c(0, 1000), c(1, 1000)}},
@@ -953,6 +1189,8 @@ func main() {
 	runHistory := func(h *history, genOps func(o obs, i int) []*op) {
 		w := worlds[h.Cfg]
 		ctx, _ := w.ctx.CacheContext()
+		curAddr = map[int64]sdk.AccAddress{}
+		curValP = w.valP
 		h.signedAt = map[int64]map[int64]bool{}
 		cur := w.observe(ctx)
 		init := cur
@@ -979,6 +1217,9 @@ func main() {
 			first = false
 			h.coq.WriteString(fmt.Sprintf("(%s, %d, %s, %s)", o.coq(), resCode(o.Res), aux, ob))
 			dist.Inc(o.Kind + ":" + o.Res)
+			if o.Kind == "rotate_val_rr" {
+				return false // later allocations pay the recovery module: outside the model
+			}
 			return o.Res != "panic" || (o.Kind != "begin" && o.Kind != "allocate" && o.Kind != "end")
 		}
 		if genOps == nil {
@@ -1020,7 +1261,7 @@ func main() {
 	}
 	for i := 0; i < *n; i++ {
 		ci := rng.Intn(len(configs))
-		g := &gen{r: rng.Fork(), w: worlds[ci]}
+		g := &gen{r: rng.Fork(), w: worlds[ci], rotatedFrom: map[int64]bool{}}
 		mode := []string{"pool", "pool", "blocks", "alloc", "mixed"}[g.r.Intn(5)]
 		h := &history{Name: fmt.Sprintf("random:%s:%d", mode, i), Cfg: ci}
 		length := 8 + g.r.Intn(18)
